@@ -185,6 +185,57 @@ func init() {
 				stat("C18", "generated-checked")
 			}
 		}
+		// the library's own generator also makes symmetric keys (for tests): every one of them is rejected by
+		// validation; and for any other algorithm it either refuses or gives keys that validation rejects
+		for _, id := range []string{"", "sym", "a b"} {
+			for _, mk := range []struct {
+				what string
+				f    func() (jwk.Set, jwk.Set, error)
+			}{
+				{"NewKeyPair(HS512)", func() (jwk.Set, jwk.Set, error) { return jwkutil.NewKeyPair(id, jwa.HS512) }},
+				{"NewSymmetricKeyPairFromString(HS512)", func() (jwk.Set, jwk.Set, error) {
+					return jwkutil.NewSymmetricKeyPairFromString(id, "a shared secret of some length", jwa.HS512)
+				}},
+				{"NewSymmetricKeyPairFromString(HS256)", func() (jwk.Set, jwk.Set, error) {
+					return jwkutil.NewSymmetricKeyPairFromString(id, "k", jwa.HS256)
+				}},
+				{"NewKeyPair(RS256)", func() (jwk.Set, jwk.Set, error) { return jwkutil.NewKeyPair(id, jwa.RS256) }},
+				{"NewKeyPair(ES256)", func() (jwk.Set, jwk.Set, error) { return jwkutil.NewKeyPair(id, jwa.ES256) }},
+				{"NewKeyPair(HS256)", func() (jwk.Set, jwk.Set, error) { return jwkutil.NewKeyPair(id, jwa.HS256) }},
+				{"NewKeyPair(none)", func() (jwk.Set, jwk.Set, error) { return jwkutil.NewKeyPair(id, jwa.NoSignature) }},
+			} {
+				c := sx.L(sx.A("generate-unapproved"), sx.A(mk.what), sx.A(id))
+				var a, b jwk.Set
+				var err error
+				panicked := ""
+				func() {
+					defer func() {
+						if r := recover(); r != nil {
+							panicked = fmt.Sprint(r)
+						}
+					}()
+					a, b, err = mk.f()
+				}()
+				if panicked != "" {
+					oracleFail("C18", "panic", c, panicked)
+					continue
+				}
+				if err != nil {
+					stat("C18", "unapproved-generation-refused")
+					continue
+				}
+				for _, set := range []jwk.Set{a, b} {
+					for ki := 0; set != nil && ki < set.Len(); ki++ {
+						k, _ := set.Key(ki)
+						if verr := jwkutil.Validate(k); verr == nil {
+							oracleFail("C18", "unapproved-key-validates", c, fmt.Sprintf("%s gives a key of type %s with algorithm %s that passes validation", mk.what, k.KeyType(), k.Algorithm()))
+						}
+						fmt.Fprintf(out, "CASE\tC18\t%s\t%s\t1\n", sx.String(sx.L(sx.A("validate"), c18info(k))), sx.String(sx.A("reject")))
+					}
+				}
+				stat("C18", "unapproved-generated-rejected")
+			}
+		}
 		step := &signature.CommandStepWithInvariants{CommandStep: pipeline.CommandStep{Command: "echo c18"}, RepositoryURL: "repo"}
 		for i, p := range pairs {
 			sk, _ := p.priv.Key(0)
